@@ -78,9 +78,10 @@ def gen_result(rng):
                 if rng.random() < (0.95 if one_val_per_learner else 0.8): trip[(e, l, v)] = rng.choice([1, 2, 3, 3, 5, 8])
     envs = sorted({t[0] for t in trip}); lrns = sorted({t[1] for t in trip}); vals = sorted({t[2] for t in trip})
     ep = {e: rng.choice(["A", "B"]) for e in envs}; lp = {l: rng.choice([1, 2]) for l in lrns}
-    er = [["environment_id", "ep", "reindex"]] + [[e, ep[e], ep[e]] for e in envs]      # 'reindex': a parameter column whose name contains 'index'
-    lr = [["learner_id", "family", "lp"]] + [[l, "f%d" % (l % 2), lp[l]] for l in lrns]
-    vr = [["evaluator_id", "vp"]] + [[v, "z%d" % v] for v in vals]
+    # 'reindex': a parameter column whose name contains 'index'; 'seed': a name that environments, learners and evaluators all report (as real ones do) - it means the environments' column
+    er = [["environment_id", "ep", "reindex", "seed"]] + [[e, ep[e], ep[e], ep[e]] for e in envs]
+    lr = [["learner_id", "family", "lp", "seed"]] + [[l, "f%d" % (l % 2), lp[l], lp[l]] for l in lrns]
+    vr = [["evaluator_id", "vp", "seed"]] + [[v, "z%d" % v, "z%d" % v] for v in vals]
     ir = [["environment_id", "learner_id", "evaluator_id", "index", "reward"]]
     rew = {}
     for (e, l, v), n in sorted(trip.items()):
@@ -100,7 +101,7 @@ def trips_of(r):
 def key_of(meta, t, col):
     e, l, v = t
     if isinstance(col, (list, tuple)): return tuple(key_of(meta, t, c) for c in col)
-    return {"environment_id": e, "learner_id": l, "evaluator_id": v, "ep": meta["ep"].get(e), "lp": meta["lp"].get(l), "family": meta["fam"].get(l), "vp": "z%d" % v}[col]
+    return {"environment_id": e, "learner_id": l, "evaluator_id": v, "ep": meta["ep"].get(e), "seed": meta["ep"].get(e), "lp": meta["lp"].get(l), "family": meta["fam"].get(l), "vp": "z%d" % v}[col]
 
 def consistent(ctx, r, what, case):
     t = trips_of(r)
@@ -117,7 +118,7 @@ def check_fin(ctx, n_cases):
     for _ in range(n_cases):
         r, meta = gen_result(rng)
         if not meta["trip"]: continue
-        lp_choice = rng.choice([("learner_id", "environment_id"), ("learner_id", "environment_id"), ("lp", "environment_id"), ("learner_id", "ep"), ("family", "ep"),
+        lp_choice = rng.choice([("learner_id", "environment_id"), ("learner_id", "environment_id"), ("lp", "environment_id"), ("learner_id", "ep"), ("learner_id", "seed"), ("family", "ep"),
                                 (["learner_id", "evaluator_id"], "environment_id"), ("learner_id", ["environment_id", "evaluator_id"]), None])
         n = rng.choice([None, None, "min", 1, 2, 3, 5])
         if lp_choice is None and n is None: n = "min"
@@ -172,7 +173,7 @@ def check_raw(ctx, n_cases):
         r, meta = gen_result(rng)
         if not meta["trip"]: continue
         span = rng.choice([None, 1, 2, 3])
-        xkind = rng.choice(["index", "index", "ep", "reindex"])
+        xkind = rng.choice(["index", "index", "ep", "reindex", "seed"])
         case = dict(triples={str(k): v for k, v in meta["trip"].items()}, ep=meta["ep"], span=span, x=xkind)
         ctx.count("raw_learners:" + xkind, repr(case), len(meta["trip"]) >= 2)
         try:
